@@ -47,7 +47,7 @@ def replay_args(obl, inputs, res):
             chars[int(m.group(1))] = v['data']
         if k == 'e.n' and 'data' in v:
             n = int(re.sub(r'[ul]+$', '', v['data']))
-    if 'set_connective' in obl:
+    if 'set_connective' in obl or 'vec_connective' in obl:
         return [obl, "connectives=1"]
     if 'functionify' in obl:
         return [obl, "names=1"]
@@ -62,15 +62,20 @@ def replay_args(obl, inputs, res):
 
 
 def setconn_unit():
-    piece = Piece(PC, r'^    auto it3 = multi_arg_set_boolean_functions\.find\(name\);', region_end=r'^    \}', name='Parser::functionify — And/Or/Nand/Nor branch (table lookup .. end of the branch)', rules=[
+    def mk(start, nm):
+        return Piece(PC, start, region_end=r'^    \}', name=nm, rules=RULES)
+    RULES = [
         R(r'auto (\w+) = (\w+)\.find\(name\);', r'TableIt \1 = \2.find(name);', n=1, regex=True, why="auto -> iterator type of the table stub"),
         R(r'for \(auto &(\w+) : params\) \{', r'for (unsigned vi_ = 0; vi_ < params.size(); vi_++) { RCPBasic \1 = params[vi_];', n=1, regex=True, why="range-for over params -> index loop (front end rejects range-for)"),
         R(r'is_a_Boolean\(\*(\w+)\)', r'is_a_Boolean_id(\1)', n=1, regex=True, why="type test on the ghost Boolean flag of the value id"),
         R(r'throw (\w+)\(((?:[^;()"]|"[^"]*"|\([^()]*\))*)\);', r'VERIF_THROW(\1);', n='*', regex=True, why="exception object dropped"),
         R(r'rcp_static_cast<const Boolean>\(', 'as_boolean(', n='*', regex=True, why="static cast of the RCP -> identity on value ids"),
         R(r'\b(\w+)->second\(', r'call_entry(\1, ', n=1, regex=True, why="call through the std::function stored in the table row -> ghost call record"),
-        R(r'\bauto\b', 'RCPBasic', n='*', regex=True, why="any further auto names an operand handle")])
+        R(r'\bauto\b', 'RCPBasic', n='*', regex=True, why="any further auto names an operand handle")]
+    piece = mk(r'^    auto it3 = multi_arg_set_boolean_functions\.find\(name\);', 'Parser::functionify — And/Or/Nand/Nor branch (table lookup .. end of the branch)')
+    vpiece = mk(r'^    auto it2 = multi_arg_vec_boolean_functions\.find\(name\);', 'Parser::functionify — Xor/Xnor branch (table lookup .. end of the branch)')
+    ev = Entry('h_vec_connective', defines={'CAP': 3}, route='B', timeout=600, mem_gb=6, unwind=10, bounds="operand lists of 1..3 operands drawn from 8 value ids (any Boolean flags)")
     e = Entry('h_set_connective', defines={'CAP': 3}, route='B', timeout=600, mem_gb=6, unwind=10, bounds="operand lists of 1..3 operands drawn from 8 value ids (any Boolean flags)")
-    return Unit('set_connective', 'C17', 'contracts/C17/set_connective.cpp', {'setbool.inc': [piece]}, [e], route='B',
+    return Unit('set_connective', 'C17', 'contracts/C17/set_connective.cpp', {'setbool.inc': [piece], 'vecbool.inc': [vpiece]}, [e, ev], route='B',
                 trusted=["vec_basic / set_boolean fixed-capacity stubs (std::set keeps one copy of equal elements), table lookup abstracted to found / not found, RCP = opaque value id"],
-                assumptions=["only the And/Or/Nand/Nor branch of Parser::functionify; the other branches of the params.size() dispatch are not under contract", "at most 3 operands"])
+                assumptions=["only the And/Or/Nand/Nor and Xor/Xnor branches of Parser::functionify; the other branches of the params.size() dispatch are not under contract", "at most 3 operands"])
